@@ -171,4 +171,30 @@ def main(run):
             n0 = snaps[1]
             run.sample({"k": k, "snapshot_n": n0, "runs": runs, "expected_inclusion": k / n0,
                         "observed_inclusion_per_arrival": {str(t + 1): incl[n0][t] / runs for t in picks(k, n0)}})
-    run.notes["max_min_detectable_deviation"] = mdd
+    # ---- thin slices of the size axis: EVERY reservoir size 1..24 with a coarse inclusion test (first, (k+1)-th, middle, last arrival)
+    ks = [k for k in range(1, 25) if k % nsh == sh]
+    runs = 1500 if not thorough else 20000
+    ct = CellTests(4 * len(ks) + 1, eps=EPS / (len(GRID) + 2))
+    random.seed(run.shard_seed * 31337 + 5)
+    sweep_fails = []
+    for k in ks:
+        n = 3 * k + 2
+        probe = sorted({0, k, n // 2, n - 1})
+        cnt = collections.Counter()
+        for _ in range(runs):
+            st = UniformReservoirStorage(size=k, store_targets=False)
+            for i in range(n):
+                st.update({"t": i})
+            have = {x["t"] for x in st.get_data()[0]}
+            for t in probe:
+                cnt[t] += t in have
+        run.ok(runs, kind="size-sweep")
+        for t in probe:
+            r = ct.test(cnt[t], runs, k / n, f"size-sweep k={k} n={n} inclusion of arrival #{t + 1}")
+            if r:
+                sweep_fails.append(r)
+        run.nontriv(("size-sweep", k))
+    run.count("cell-tests", ct.done)
+    for msg in sweep_fails[:3]:
+        run.violation("inclusion-law", msg + f" over {runs} runs", {"size_sweep": True, "runs": runs})
+    run.notes["max_min_detectable_deviation"] = max(mdd, ct.max_mdd)
